@@ -1,7 +1,10 @@
 """C09 — BUG integrators: the step the scheme defines, conservation, canonical root, shape contracts.
 
 Stage B: the order of local Galerkin evolutions (observed through the guarded time_evolve hook) is compared
-with the Lean model Ptn.C09 (children before parents, root last), children taken in the order the run visited.
+with the Lean model Ptn.C09 (children before parents, root last), children taken in the order the run visited;
+the events of the same run that concern the gauge (centre moves with their QR mode, pulls, contract_all_children,
+split_node_replace with the QR kind behind it, the root's replace_tensor; `GaugeObserver`) are compared EXACTLY with
+the gauge machine Ptn.C09.Gauge (`C09 gauge`), and every new basis tensor is checked to be an isometry toward the parent.
 Stage C: (i) step-equality clause: for states whose bonds equal their Schmidt ranks the state after one step
 equals an independent dense reference of the BUG scheme (harness/bugref.py), both integrators, both copy
 strategies; (ii) other clauses on arbitrary (also redundant-bond) states over several steps and a truncation grid.
@@ -39,6 +42,22 @@ PARTIAL = ["step-equality with the scheme is decided per input against the dense
            "fixed_rank_step_nonexpansive; instances of Ptn.Analysis) and a basis containing the old one reproduces the old "
            "state (augmented_basis_reproduces_state); that the library's embeddings ARE isometric and that the new bases "
            "contain the old ones are hypotheses of these theorems, validated numerically",
+           "canonical form at the root / completion / structure: proved on machines that follow root_update / update_node "
+           "event by event - the gauge machine Ptn.C09.Gauge (bug_step_canonical_at_root: from ANY recorded gauge, both "
+           "variants, every tree: the run is never stuck, afterwards every non-root node is a QR factor toward its parent, the "
+           "root carries none, no basis-change node is left; bug_step_qr_events; rank_adaptive_truncation_keeps_canonical for "
+           "the canonical_form that ends recursive_truncation, through Ptn.C03.canon_gauge_tree) is tied to the real classes "
+           "by an exact comparison of the observed sequence of centre moves (with QR mode), pulls, contract_all_children "
+           "calls, local evolutions, split_node_replace calls (node, parent, augmented or not) and the final replace_tensor "
+           "with the model's `gauge` answer; that every Q IS an isometry toward the parent is the QR contract, validated on "
+           "every live call. On the C02 structural model: bug_split_structure (split_node_replace literally), "
+           "bug_basis_up_structure, bug_step_structure_partial (runs in which every basis-change tensor is absorbed right "
+           "after its split; the literal delayed absorption has no run-level theorem), fixed_bug_keeps_shapes_partial (the "
+           "replacement itself keeps all leg dimensions when the QR keeps the rank; not propagated through the step), "
+           "rank_adaptive_bonds_le_partial (kept count <= max_bond_dim by Ptn.C10.trunc_is_prefix; that the bonds of the "
+           "returned state are these counts is oracle-only), bug_step_completes_partial (cache and gauge machines never "
+           "stuck; success of the structural edits is a hypothesis). Shapes, bonds <= maximum, completion of the real code: "
+           "decided per input",
            "QR / expm contracts"]
 ASSUMPTIONS = ["dense reference harness/bugref.py written from the scheme's definition, eigh-based propagators"]
 
